@@ -23,7 +23,7 @@ class IoModel:
         self.fn = fn = p.find_function("FileAnonymizer.anonymize_io")
         if len(fn.params) < 3:
             raise AnalysisError("anonymize_io signature changed")
-        self.inp, self.outp = ("param", fn.params[1]), ("param", fn.params[2])
+        self.inp, self.outp = ("param", fn.mparams[1]), ("param", fn.mparams[2])
         self.fp = A.paths(fn)
         self.loops = []
         for path in self.fp.paths:
@@ -189,7 +189,7 @@ def split_line_shape(ctx, rep, cl):
     p, A = ctx.p, ctx.A
     f = p.find_function("_split_line")
     rep.analysed(f)
-    lp = ("param", f.params[0])
+    lp = ("param", f.mparams[0])
     call = lambda m: ("call", ("attr", lp, m), (), ())
     ln = lambda x: ("call", ("builtin", "len"), (x,), ())
     want = ("tuple", (
@@ -382,7 +382,7 @@ def c15(ctx, rep):
             for st, t in full:
                 if st == "pwd":
                     b = bind_args(t, f_rmi) or {}
-                    want = {f_rmi.params[0]: ("attr", SELF, "compiled_regexes"), f_rmi.params[2]: ("attr", SELF, "pwd_lookup"), f_rmi.params[3]: ("attr", SELF, "salt")}
+                    want = {f_rmi.mparams[0]: ("attr", SELF, "compiled_regexes"), f_rmi.mparams[2]: ("attr", SELF, "pwd_lookup"), f_rmi.mparams[3]: ("attr", SELF, "salt")}
                     for k, v in want.items():
                         rep.ob("C15.stage-arguments", "pwd:%s" % k, b.get(k) == v, "replace_matching_item(%s=%s); expected %s" % (k, show(b.get(k)), show(v)), W(f_io), key="C15.stage-arguments|pwd:%s" % k)
                 elif st in ("ip6", "ip4"):
@@ -502,6 +502,8 @@ def c16(ctx, rep):
             continue
         fl = file_loop[0]
         lst = fl.iter
+        while M.builtin_call(lst, "list", 1) or M.builtin_call(lst, "tuple", 1):
+            lst = lst[2][0]  # a copy of the collected pairs has the same pairs in the same order
         if isfile is True:
             n_single += 1
             root = strip_mut(lst)
@@ -633,7 +635,12 @@ def _per_file_body(ctx, rep, f_files, fl, lv_in, lv_out):
         bad = [x for s in h.body for x in _ast.walk(s) if isinstance(x, (_ast.Raise, _ast.Break, _ast.Return))]
         rep.ob("C16.handler-continues", "anonymize_files", not bad, "the handler re-raises / leaves the loop (%s): later files would not be processed" % [type(x).__name__ for x in bad], W(f_files, h), key="C16.handler-continues|anonymize_files")
         logs = [x for s in h.body for x in _ast.walk(s) if isinstance(x, _ast.Call) and isinstance(x.func, _ast.Attribute) and x.func.attr in ("error", "exception", "critical") and _ast.unparse(x.func.value) == "logging"]
-        okl = bool(logs) and any(any(isinstance(a, _ast.Name) for a in c.args[1:]) for c in logs)
+        tnames = {x.id for x in _ast.walk(loop_node.target) if isinstance(x, _ast.Name)}
+        for _round in range(3):  # locals computed from the loop target (in_path = pair.in_path)
+            for st_ in _ast.walk(loop_node):
+                if isinstance(st_, _ast.Assign) and tnames & {x.id for x in _ast.walk(st_.value) if isinstance(x, _ast.Name)}:
+                    tnames |= {x.id for t_ in st_.targets for x in _ast.walk(t_) if isinstance(x, _ast.Name)}
+        okl = bool(logs) and any(any(tnames & {x.id for x in _ast.walk(a) if isinstance(x, _ast.Name)} for a in c.args[1:]) for c in logs)  # names the current pair / its input path
         rep.ob("C16.failure-reported", "anonymize_files", okl, "the handler reports the failing input file at ERROR level", W(f_files, h), key="C16.failure-reported|anonymize_files")
         stateful = [x for s in h.body for x in _ast.walk(s) if isinstance(x, (_ast.Assign, _ast.AugAssign, _ast.Delete))]
         rep.ob("C16.handler-stateless", "anonymize_files", not stateful, "the handler changes no state", W(f_files, h), nontrivial=False)
@@ -745,35 +752,40 @@ def c19(ctx, rep):
             if has_effect:
                 late.append(path.describe()[-100:])
     rep.ob("C19.no-late-rejection", "anonymize_files", not late, "anonymize_files raises after it has started writing: %s" % late[:2], W(f_files), key="C19.no-late-rejection|anonymize_files")
-    # 2. nothing enabled => nothing written
-    want_feats = {"as_numbers", "sensitive_words", "anonymize_passwords", "anonymize_ips", "undo"}
-    got = set()
-    feature_terms = None
-    all_true = True
+    # 2. nothing enabled => nothing written, and every single feature is enough to run
+    flag_feats = {"anonymize_passwords": "anon_pwd", "anonymize_ips": "anon_ip", "undo": "undo_ip_anon"}
+    list_feats = {"as_numbers": "as_numbers", "sensitive_words": "sensitive_words"}
+    gated = True
+    detail = []
     for path, call in reach:
-        found = False
-        for t, pol in path.atoms():
-            if M.is_call(t) and t[1] == ("builtin", "any") and t[2] and t[2][0][0] in ("list", "tuple"):
-                found = True
-                feature_terms = (t[2][0][1], pol)
-                all_true = all_true and pol
-                for x in t[2][0][1]:
-                    sx = show(x)
-                    for wname in want_feats:
-                        if wname in sx:
-                            got.add(wname)
-        if not found:
-            all_true = False
-    if feature_terms is not None:
-        feature_terms = (feature_terms[0], all_true)
-    rep.ob("C19.nothing-enabled-nothing-written", "main", feature_terms is not None and feature_terms[1] is True and got == want_feats,
-           "anonymize_files is called only when any(%s) holds; expected exactly the five feature options %s" % (sorted(got), sorted(want_feats)), W(f_main), key="C19.nothing-enabled-nothing-written|main")
+        b = bind_args(call.a, f_files) or {}
+        terms = [b.get(r) for r in list(flag_feats.values()) + list(list_feats.values())]
+        if any(t is None for t in terms):
+            gated = False
+            detail.append("call without the five feature arguments")
+            continue
+        if path.possible({t: False for t in terms if t[0] != "const" or t[1]}) is not False and not any(t[0] == "const" and t[1] for t in terms):
+            gated = False
+            detail.append("reached with every feature off: %s" % path.describe()[:120])
+    ungated = []
+    for pth in fp.paths:
+        if not pth.feasible() or pth.kind == "raise" or any(pth is r[0] for r in reach):
+            continue
+        for opt in flag_feats:
+            if pth.possible({A_(opt): True}) is not False:
+                ungated.append(opt)
+        for opt in list_feats:
+            if pth.possible({isnone(A_(opt)): False}) is not False:
+                ungated.append(opt)
+    rep.ob("C19.nothing-enabled-nothing-written", "main", gated and not ungated,
+           "anonymize_files is reached only with some feature on (%s), and main returns without it only when all five feature options are off (features that do not suffice on their own: %s)" % (detail[:2] or "ok", sorted(set(ungated)) or "none"),
+           W(f_main), key="C19.nothing-enabled-nothing-written|main")
     no_call = [pth for pth in fp.paths if pth.feasible() and pth.kind != "raise" and not any(pth is r[0] for r in reach)]
     rep.ob("C19.no-feature-path", "main", len(no_call) >= 1 and all(not any(e.a[1] == ("builtin", "open") for e, ls in pth.calls()) for pth in no_call), "paths on which no feature is enabled: %d, none writes" % len(no_call), W(f_main), nontrivial=False)
     # 3. host bits
     f_hb = p.find_function("host_bits")
     rep.analysed(f_hb)
-    xp = ("param", f_hb.params[0])
+    xp = ("param", f_hb.mparams[0])
     val = ("call", ("builtin", "int"), (xp,), ())
     ok_ret = ok_guard = False
     for path in A.paths(f_hb).paths:
@@ -810,7 +822,7 @@ def c19(ctx, rep):
     rep.ob("C19.config-parser", "_parse_args", parser_ok, "the parser is a configargparse parser", W(f_parse), key="C19.config-parser|_parse_args")
     for path in A.paths(f_parse).paths:
         r = path.returned()
-        ok = M.is_call(r) and M.callee_name(r) == "parse_args" and r[2] == (("param", f_parse.params[0]),)
+        ok = M.is_call(r) and M.callee_name(r) == "parse_args" and r[2] == (("param", f_parse.mparams[0]),)
         rep.ob("C19.no-post-processing", "_parse_args", ok, "_parse_args returns %s; expected parser.parse_args(argv) unmodified" % show(r)[:80], W(f_parse), key="C19.no-post-processing|_parse_args")
     # 5. defaults
     want_defaults = {"--anonymize-ips": False, "--dump-ip-map": None, "--log-level": "INFO", "--as-numbers": None, "--anonymize-passwords": False, "--reserved-words": None, "--salt": None, "--undo": False,
@@ -866,7 +878,7 @@ def c19(ctx, rep):
     _private_merge(ctx, IpModel(ctx), rep, "C19")
     # log level wiring
     lvl = opts.get("--log-level")
-    rep.ob("C19.log-level-choices", "--log-level", lvl is not None and lvl["choices"] == ("ok", ["DEBUG", "INFO", "WARNING", "ERROR", "CRITICAL"]), "log level choices %s" % (lvl["choices"] if lvl else None,), lvl["where"] if lvl else "", nontrivial=False)
+    rep.ob("C19.log-level-choices", "--log-level", lvl is not None and lvl["choices"][0] == "ok" and isinstance(lvl["choices"][1], (list, tuple)) and list(lvl["choices"][1]) == ["DEBUG", "INFO", "WARNING", "ERROR", "CRITICAL"], "log level choices %s" % (lvl["choices"] if lvl else None,), lvl["where"] if lvl else "", nontrivial=False)
 
 
 CHECKS = {"C12": c12, "C15": c15, "C16": c16, "C19": c19}
